@@ -30,24 +30,38 @@ def run(plan):
     w = World(seed=plan.get("seed", 0), max_iterations=5000)
     res = Result()
     hosts = {}
+    tcp = {}
     for h in plan["hosts"]:
         data = good_reply(h["version"], h["device_id"], h["inner_ip"], h["port"], h["sn"], h["name"])
-        hosts[h["ip"]] = RefHost(h["ip"], [(h.get("delay", 0.05), h.get("src_port", 6445), data)])
+        hosts[h["ip"]] = RefHost(h["ip"], [(h.get("delay", 0.05), h.get("src_port", 6445), data)],
+                                 errors=[tuple(e) for e in h.get("errors", [])])
         w.net.add_udp_host(h["ip"], hosts[h["ip"]])
+        if plan.get("auto") and h.get("tcp") in ("ok", "slow", "silent", "hang"):
+            from refmodel.device import RefDevice
+            d = RefDevice(version=2, device_id=h["device_id"])
+            if h["tcp"] == "slow":
+                d.default_directive = {"lat": 1.9}
+            elif h["tcp"] == "silent":
+                d.default_directive = {"drop": True}
+            elif h["tcp"] == "hang":
+                d.conn_script = [["hang", 0]] * 4        # SYNs go unanswered: the 5 s connect timeout runs out
+            w.net.listen(h["ip"], h["port"], d)
+            tcp[h["ip"]] = d
+    auto = bool(plan.get("auto"))
 
     async def main(w):
         D = w.ns.discover.Discover
         npk = plan.get("packets", 3)
         if plan.get("single"):
             target = plan["single"]
-            o = await capture(w, D.discover_single(target, auto_connect=False, discovery_packets=npk))
+            o = await capture(w, D.discover_single(target, auto_connect=auto, discovery_packets=npk))
             if o.kind != "ok":
                 res.fail(f"discover_single raised {o.exc_type}", repr(o.exc))
                 return
             devs = [o.value] if o.value is not None else []
             expect_ips = [target] if target in hosts else []
         else:
-            o = await capture(w, D.discover(auto_connect=False, discovery_packets=npk))
+            o = await capture(w, D.discover(auto_connect=auto, discovery_packets=npk))
             if o.kind != "ok":
                 res.fail(f"discover raised {o.exc_type}", repr(o.exc))
                 return
@@ -95,10 +109,13 @@ def run(plan):
             if (want["type"] == 0xAC) != isinstance(d, AC):
                 res.fail("device class does not match the appliance type", f"type {want['type']:#x} -> {type(d).__name__}")
                 return
-            if d.online or d.token is not None:
+            if not auto and (d.online or d.token is not None):
                 res.fail("auto_connect=False device was contacted", "")
                 return
-        if w.net.conns:
+            if auto and h.get("tcp") == "ok" and want["type"] == 0xAC and not d.online:
+                res.fail("auto_connect=True: reachable air conditioner not refreshed", h["ip"])
+                return
+        if not auto and w.net.conns:
             res.fail("auto_connect=False opened TCP connections", "")
 
     try:
@@ -112,6 +129,10 @@ def run(plan):
         res.fired["reported_ip_differs_from_source"] = 1
     if any(h.get("src_port", 6445) != 6445 for h in plan["hosts"]):
         res.fired["udp_other_port"] = 1
+    if w.net.stats.get("udp_error_received"):
+        res.fired["udp_error_received"] = w.net.stats["udp_error_received"]
+    if plan.get("auto"):
+        res.fired["auto_connect_v2"] = 1
     return res
 
 
@@ -153,6 +174,18 @@ def space(tier):
             p["single"] = rng.choice(hosts)["ip"]
         elif r < 0.35:
             p["single"] = "192.168.250.250"       # nobody there
+        if rng.random() < 0.25:
+            # a transient socket error is reported to the prober while replies are still on their way
+            h = rng.choice(hosts)
+            h["errors"] = [[rng.choice([0.001, 0.02, 0.5, 3.0]), rng.choice([104, 1, 101, 105])]]
+        if rng.random() < 0.25:
+            # auto-connect against V2 devices that are quick, slow, silent or not listening at all
+            p["auto"] = True
+            for h in hosts:
+                h["version"] = 2
+                h["tcp"] = rng.choice(["ok", "ok", "slow", "silent", "refused", "hang"])
+                if rng.random() < 0.8:
+                    h["name"] = "net_" + rng.choice(["ac", "AC"]) + "_" + h["name"].split("_")[2]
         return p
     sp.add("random", 12000 if tier == "quick" else 300_000, rnd)
     return sp
